@@ -197,7 +197,7 @@ def c10(tier, replay):
     import checks_uci
     checks_uci.position_dumps(run, "C10", tier)
     # (c) search on histories that offer a third repetition: completed depths never below zero; value = Ref with the record
-    scen = make_scenarios(h, 0, 0, 14 if q else 80, 0, "C10")
+    scen = make_scenarios(h, 0, 0, 24 if q else 150, 0, "C10")
     t2, summ = run_expiry(run, "C10", h, scen, "rep", 4, 0, 400000, 2, "rep")
     if t2.get("sfull", 0) == 0:
         raise ToolError("coverage hole: no repetition scenarios")
